@@ -28,10 +28,23 @@ type c13Case struct {
 	Fail       int   `json:"failing"`   // -1 none
 	Background int   `json:"background"`
 	Desc       bool  `json:"descending_order,omitempty"`
+	Zero       int   `json:"zero_size_runners,omitempty"` // mask over stateless (field-less) runner types Z1,Z2,Z3
 }
 
 func c13Gen(c *core.Ctx) func(yield func(c13Case) bool) {
 	return func(yield func(c13Case) bool) {
+		// stateless runners of field-less types (they all live at one address) next to 0-2 ordinary ones
+		for z := 1; z < 8; z++ {
+			for _, s := range [][]int{nil, {10}, {0, 5}} {
+				for bg := 0; bg < 3; bg++ {
+					for _, d := range []bool{false, true} {
+						if !yield(c13Case{s, 0, -1, bg, d, z}) {
+							return
+						}
+					}
+				}
+			}
+		}
 		seqs(3, 11, func(s []int) bool {
 			n := len(s)
 			masks := []int{0, 1<<n - 1}
@@ -45,7 +58,7 @@ func c13Gen(c *core.Ctx) func(yield func(c13Case) bool) {
 				for f := -1; f < n; f++ {
 					for bg := 0; bg < 3; bg++ {
 						for _, d := range []bool{false, true} {
-							if !yield(c13Case{s, m, f, bg, d}) {
+							if !yield(c13Case{s, m, f, bg, d, 0}) {
 								return false
 							}
 						}
@@ -103,13 +116,38 @@ func c13Run(c *core.Ctx) {
 					out[i], out[j] = out[j], out[i]
 				}
 			}
+			for i, z := range []any{&scen.Z1{}, &scen.Z2{}, &scen.Z3{}} {
+				if cs.Zero>>i&1 == 1 {
+					out = append(out, z)
+				}
+			}
 			return out
 		}
+		scen.ZLog = nil
 		o := scen.RunGraph(p, envx.Fixed("", nil))
 		c.S.Evaluations++
 		c.S.Programs++
 		c.S.States++
 		c.S.Transitions += int64(o.Trace.Calls) + int64(len(o.RT.Log))
+		if cs.Zero != 0 && o.OK() {
+			want := 0
+			for i := 0; i < 3; i++ {
+				if cs.Zero>>i&1 == 1 {
+					want++
+					cnt := 0
+					for _, e := range scen.ZLog {
+						if e == fmt.Sprintf("run:Z%d", i+1) {
+							cnt++
+						}
+					}
+					if cnt != 1 {
+						c.Outcome("zero-size-runner-not-once")
+						c.Report("C13/zero/"+core.Hash(cs), "not-exactly-once", fmt.Sprintf("stateless runner Z%d (a field-less type) was invoked %d times; runner log %v, ordinary runners %v", i+1, cnt, scen.ZLog, cs.Seq), cs)
+						return
+					}
+				}
+			}
+		}
 		if n >= 2 || cs.Fail >= 0 {
 			c.S.Nontrivial++
 		}
